@@ -1,4 +1,5 @@
 import GohbaseVerif.Lemmas.BatchSend
+import GohbaseVerif.Gen.Exits
 /-!
 # C07 — Batch results are positional and self-consistent
 
@@ -349,5 +350,15 @@ example : sendBatch exInfo [0, 1]
 example : sendBatch exInfo [0]
     [⟨fun _ => .ok 0, fun _ => .fail .retryable 1, [], .none⟩, ⟨fun _ => .ok 0, fun _ => .ok 2, [], .none⟩]
     = .ok ⟨[⟨some 2, none⟩], true, [.queue 0 0 [0], .sleep 16000000, .queue 1 0 [0]], false⟩ := by decide
+
+/-- Regenerated from rpc.go (`findClients`): the model's `Round.locate` is a function of the call —
+what location returns for one call does not depend on which calls were located before it in the
+same round. In the source that rests on the context of a location being declared per call, inside
+the loop over the batch (`rctx, … := ctx, …` in the body of the `range`), and derived from the batch
+context alone; a context carried over from the previous call would make the location of a call
+without a context of its own fail with that other call's cancellation. -/
+theorem location_context_is_per_call_in_source :
+    GV.Gen.Exits.findClientsLocateCtxPerCall = true ∧
+    GV.Gen.Exits.findClientsWithCancel = ["rctx, cancel = WithCancel(ctx)"] := by decide
 
 end GV.Batch
